@@ -102,6 +102,25 @@ func (v polVisitor) VisitService(e pgs.Service) (pgs.Visitor, error) {
 }
 func (v polVisitor) VisitMethod(e pgs.Method) (pgs.Visitor, error) { return v.visit(v.run.r.refOf(e)) }
 
+// preAccess calls the read accessors of every entity (their answers are dropped): what is asked
+// afterwards may not depend on it (deterministic in the input, so a replay repeats it)
+func preAccess(r *astRun) {
+	if r.failed {
+		return
+	}
+	for _, en := range allEntities(r) {
+		for _, acc := range accessorsOf(en.kind) {
+			if acc == "walk" || acc == "walkfail" || acc == "desc" || ((acc == "deps" || acc == "dpts" || acc == "edpts" || acc == "dependents") && !r.w.Bidi) {
+				continue
+			}
+			func() {
+				defer func() { recover() }()
+				callAccessor(r, en.e, acc)
+			}()
+		}
+	}
+}
+
 func observeC07(r *astRun) interface{} {
 	if r.failed {
 		return map[string]interface{}{"failed": true}
@@ -119,17 +138,7 @@ func observeC07(r *astRun) interface{} {
 	// on every second world the read accessors of every entity are called first: a walk is a walk of
 	// the AST, whatever was asked of it before (deterministic in the input, so a replay repeats it)
 	if (len(r.w.Walks)+len(r.w.Files))%2 == 1 {
-		for _, en := range allEntities(r) {
-			for _, acc := range accessorsOf(en.kind) {
-				if acc == "walk" || acc == "walkfail" || acc == "desc" || ((acc == "deps" || acc == "dpts" || acc == "edpts" || acc == "dependents") && !r.w.Bidi) {
-					continue
-				}
-				func() {
-					defer func() { recover() }()
-					callAccessor(r, en.e, acc)
-				}()
-			}
-		}
+		preAccess(r)
 	}
 	out := []walkObs{}
 	for _, wk := range r.w.Walks {
